@@ -403,6 +403,18 @@ func (w *world) describesVersion(name, hash string, size int64, mtimeNs int64) b
 	return false
 }
 
+// versionWithStamp: some registered version of the name has that size and modification time
+func (w *world) versionWithStamp(name string, size int64, mtimeNs int64) bool {
+	w.regMu.Lock()
+	defer w.regMu.Unlock()
+	for _, v := range w.registry[name] {
+		if int64(len(v.Data)) == size && v.MTime.UnixNano() == mtimeNs {
+			return true
+		}
+	}
+	return false
+}
+
 // isVersionSize: some registered version of the name has that size
 func (w *world) isVersionSize(name string, size int64) bool {
 	w.regMu.Lock()
